@@ -58,6 +58,11 @@ def body_c12(tier, seed, rep, only_prop=False, scale=1):
         a, b = gen_lin_domain(rng, near_degenerate=True)
         r0 = rng.choice([0.0, 0.0, -50.0, 12.5, rnd_mag(rng, -3, 6)])
         r1 = r0 + rng.choice([1, -1]) * rng.choice([100.0, 360.0, 1.0, 1000.0, 10 ** rng.uniform(-3, 6)])
+        if rng.random() < 0.3:      # two unrelated end points (their difference is not representable: r0 + (r1 - r0) != r1 in floating point)
+            r0 = rng.choice([rng.uniform(-1000, 1000), rnd_mag(rng, -6, 9), 733.81, 0.1])
+            r1 = rng.choice([rng.uniform(-1000, 1000), rnd_mag(rng, -6, 9), -0.004, 0.7])
+            if r1 == r0:
+                r1 = r0 + 1.0
         c = rng.random() < 0.3
         s = LinearScale().domain([a, b]).range([r0, r1]).clamp(c)
         lo, hi = min(a, b), max(a, b)
